@@ -35,6 +35,12 @@
 //   p<k>:<key>:<value>  d<k>:<key>  c<k>:<prefix>  v<k>:<0|1>     on TrieState k (no open transaction)
 //   S<k>                StoreTrie(TrieState k, nil)
 //   T<k>                TrieState(&root) with the root under which k was last stored -> new handle
+//   R0                  restart: a new InmemoryStorageState with NewTries() on the same database, so that
+//                       TrieState(root) takes the path that rebuilds the trie from the database
+//   X<k>                the root under which k was last stored is pruned from the in-memory Tries map
+// after the handles every record carries `@` and, per distinct stored root in order of first store,
+// the view (hash#entries) of the trie the Tries map holds under that root (`-` when it holds none;
+// the map is read directly, never through loadTrie, which would repopulate it).
 // observed: as in harness_test.go (probe, init record, one record per step; Root and TrieEntries
 // of EVERY live TrieState after every step).
 package state
@@ -531,6 +537,7 @@ type c03sCase struct {
 	s      *InmemoryStorageState
 	hs     []*storage.TrieState
 	stored map[int]common.Hash
+	roots  []common.Hash // distinct stored roots, in order of first store
 }
 
 func (c *c03sCase) step(tok string) (res string) {
@@ -570,6 +577,25 @@ func (c *c03sCase) step(tok string) (res string) {
 			return "err"
 		}
 		c.stored[k] = root
+		seen := false
+		for _, r := range c.roots {
+			seen = seen || r == root
+		}
+		if !seen {
+			c.roots = append(c.roots, root)
+		}
+	case 'R':
+		s, err := NewStorageState(c03sDB, nil, NewTries())
+		if err != nil {
+			return "err"
+		}
+		c.s = s
+	case 'X':
+		root, ok := c.stored[k]
+		if !ok {
+			return "bad"
+		}
+		c.s.tries.delete(root)
 	case 'T':
 		root, ok := c.stored[k]
 		if !ok {
@@ -599,10 +625,34 @@ func c03sRun(in string) string {
 	c := &c03sCase{s: s, hs: []*storage.TrieState{storage.NewTrieState(inmemory_trie.NewEmptyTrie())},
 		stored: map[int]common.Hash{}}
 	var prev []string
+	var prevR []string
 	var out strings.Builder
 	out.WriteString(c03sProbe() + " ")
 	record := func(res string) bool {
 		out.WriteString(res)
+		defer func() {
+			out.WriteString("/@")
+			for j, root := range c.roots {
+				if j >= len(prevR) {
+					prevR = append(prevR, "")
+				}
+				t := c.s.tries.get(root)
+				if t == nil {
+					out.WriteString("/-")
+					continue
+				}
+				o, p := c03sObserve(storage.NewTrieState(t))
+				if p {
+					o = "panic"
+				}
+				if prevR[j] == o {
+					out.WriteString("/=")
+				} else {
+					out.WriteString("/" + o)
+				}
+				prevR[j] = o
+			}
+		}()
 		for j, t := range c.hs {
 			o, p := c03sObserve(t)
 			if p {
@@ -664,9 +714,27 @@ func c03sGen(r *vu.RNG, n int, emit func(string)) {
 			return c[r.Intn(len(c))]
 		}
 		steps := 5 + r.Intn(14)
+		forceT := false
 		for s := 0; s < steps; s++ {
 			x := r.Intn(100)
+			if forceT {
+				x = 0
+				forceT = false
+			}
 			switch {
+			case x >= 94 && len(stored) > 0: // the in-memory tries are dropped (restart / pruning): the next
+				// TrieState(root) rebuilds the trie from the database
+				if x < 98 {
+					toks = append(toks, "R0")
+				} else {
+					var c []int
+					for i := range stored {
+						c = append(c, i)
+					}
+					sort.Ints(c)
+					toks = append(toks, "X"+vu.X(uint64(c[r.Intn(len(c))])))
+				}
+				forceT = r.Intn(4) > 0
 			case x < 20 && len(stored) > 0 && nh < 7: // a new block on top of a stored state
 				var c []int
 				for i := range stored {
